@@ -561,5 +561,5 @@ func c05Gen(g *G) {
 }
 
 func init() {
-	register(&Prop{Name: "c05", Gen: c05Gen, Exec: c05Exec, Judge: c05Judge})
+	register(&Prop{Name: "c05", Stateless: true, Gen: c05Gen, Exec: c05Exec, Judge: c05Judge})
 }
